@@ -484,5 +484,14 @@ func equalValues(value1 any, value2 any) (result bool) {
 // Clone the variant value
 //	Returns: The cloned value of this variant
 func (c *Variant) Clone() *Variant {
-	return NewVariant(c)
+	result := NewVariant(c)
+	// The elements of an array are cloned too: changing an element of the clone does not change the original
+	if elements, ok := result.value.([]*Variant); ok {
+		for index, element := range elements {
+			if element != nil {
+				elements[index] = element.Clone()
+			}
+		}
+	}
+	return result
 }
